@@ -399,10 +399,13 @@ class Client:
         code, data, challenge = self.__send_command(
             "AUTHENTICATE", [b"DIGEST-MD5"], withcontent=True, nblines=1
         )
+        if code is not None:
+            # the server answered NO (or OK) instead of a challenge
+            return False
         dmd5 = DigestMD5(challenge, "sieve/%s" % self.srvaddr)
 
         code, data, challenge = self.__send_command(
-            '"%s"' % dmd5.response(login, password, authz_id),
+            '"%s"' % dmd5.response(login, password, authz_id).decode("ascii"),
             withcontent=True,
             nblines=1,
         )
